@@ -11,9 +11,11 @@ OBLIGATIONS = [
     'C08.eo_is_null', 'C08.einf_is_null', 'C08.eo_dot_einf_eq', 'C08.E0_squares_to_one', 'C08.up_is_null', 'C08.up_dot_einf_eq',
     'C08.distance_identity', 'C08.homo_removes_scale', 'C08.down_up_id', 'C08.model_satisfies_relations',
     'C08.inner_is_half_anticommutator', 'C08.wedge_is_half_commutator', 'C08.vector_wedge_bivector',
+    'C08.coded_eo_dot_einf', 'C08.coded_up_dot_einf', 'C08.coded_distance', 'C08.coded_homo_scale', 'C08.coded_E0', 'C08.coded_down_up',
 ]
-PARTIAL = ['the identities use a.b = (ab+ba)/2 and v^E0 = (vE0+E0v)/2; both are proved equal to the coded inner/outer-product tables (inner_is_half_anticommutator, '
-           'vector_wedge_bivector), but the abstract statements and the table-level statements are joined by these lemmas on paper, not by one composite Lean theorem',
+PARTIAL = ['the null / square identities (eo*eo, einf*einf, up(x)*up(x), E0*E0) are statements about the geometric product and hold in the model through '
+           'model_satisfies_relations; the identities with | and ^ are joined to the coded tables by the composite theorems coded_* (model of the conformalised layout over Q); '
+           'binary64 rounding of the real evaluation is outside',
            'gac / dpga / dg3c: down(up(x)) = x is a generated theorem (translate/shipped2lean.py) from the generator relations of the module\'s signature, for all rational '
            'coordinates, also instantiated in the model Cl n sig; `^` and `|` enter by the half-sum formulas (same join as above), the coefficient reads `[()]`, `.value[1:4]` '
            'as the model\'s coefficient functionals; float rounding of the real evaluation is outside']
